@@ -1,13 +1,14 @@
 #!/usr/bin/env python3
 """tools_patch.py <patch.diff> <ID> [<ID>...] : apply a patch to /repo, run checks, revert."""
 import subprocess, sys
-patch = sys.argv[1]
+import os
+patch = os.path.abspath(sys.argv[1])
 ids = sys.argv[2:]
 subprocess.run(['git', '-C', '/repo', 'apply', patch], check=True)
 try:
     for pid in ids:
         r = subprocess.run(['/verif/check', pid], capture_output=True, text=True)
-        lines = [l for l in r.stdout.splitlines() if l.startswith('  violation') or l.startswith('    ') or l.startswith('VIOLATION') or l.startswith('KNOWN')]
+        lines = [l for l in r.stdout.splitlines() if l.startswith('  violation') or l.startswith('    ') or l.startswith('VIOLATION')]
         print(f'--- {pid} rc={r.returncode}')
         print('\n'.join(l[:400] for l in lines[:24]))
         if r.returncode not in (0, 1):
